@@ -123,7 +123,7 @@ def probe(kind, row, spec_row, fields, dctx, ectx, out, rng, variant):
             cand = [x for x in ids if x not in used and x != 0] or ids
             v = cand[(variant * 3 + i) % len(cand)]
         elif codec in ("loc", "loc!"):
-            v = 20 + i + 13 * variant
+            v = 1 + (19 + i + 13 * variant) % 255      # a slot of the sentinel location table (1..255)
         elif codec in ("str", "strval"):
             v = 300 + 17 * i + variant
         elif codec == "switch":
@@ -138,6 +138,12 @@ def probe(kind, row, spec_row, fields, dctx, ectx, out, rng, variant):
                 v = (60 + 11 * i + 3 * variant) % 256
         while v in used:
             v += 1
+            if codec in ("loc", "loc!") and v > 255:
+                v = 1
+            elif codec == "cuwp" and v > 64:
+                v = 1
+            elif codec == "switch" and v > 255:
+                v = 0
         used.add(v)
         rec[f] = v
     cls = DecodedTriggerAction if kind == "a" else DecodedTriggerCondition
